@@ -37,11 +37,11 @@ def dfc_closed(y, m, d):
     e = z3.IntVal(cum[11])
     for k in range(10, -1, -1):
         e = z3.If(m == k + 1, cum[k], e)
-    return 365 * (y - 1900) + Lz(y) - Lz(1900) + e + z3.If(z3.And(m > 2, leap(y)), 1, 0) + d - 1
+    return 365 * (y - 1900) + Lz(y) - L1900 + e + z3.If(z3.And(m > 2, leap(y)), 1, 0) + d - 1
 
 
 def post_fields(env, ret, refs):
-    y, mo, d, h, mi, s, ns = [f.e for f in ret.fields]
+    y, mo, d, h, mi, s, ns = [Z(f.e) for f in ret.fields]   # Z(): python ints of a concrete (native) result become z3 numerals
     T = T_of(env)
     dfc = dfc_uf if env.get("__eng") is not None else dfc_closed
     return z3.And(mo >= 1, mo <= 12, d >= 1, d <= month_len(y, mo), h < 24, mi < 60, s < 60, ns < 10**9,
@@ -188,6 +188,79 @@ def on_fail(models):
     return [mk_window_ob(c, f"c09_fields_witness_c{c}".replace("-", "m"), "quick") for c in sorted(cents)[:3]]
 
 
+# ---- accessors: year() and month_name() read the fields of compute_gregorian applied to the epoch's OWN elapsed time and scale
+def summary_compute_gregorian_recording(eng, st, args):
+    """compute_gregorian replaced by `some valid fields` + a record of the arguments it was called with (its own behaviour is
+    c09_fields_all_instants); the accessor obligations then demand that the arguments are the epoch's own duration and scale"""
+    from vlib.mirsym_run import _deref
+    d = _deref(eng, st, args[0]); ts = _deref(eng, st, args[1])
+    tys = ["i32", "u8", "u8", "u8", "u8", "u8", "u32"]
+    his = [4_000_000, 12, 31, 23, 59, 59, 999_999_999]
+    los = [-4_000_000, 1, 1, 0, 0, 0, 0]
+    vs, cons = [], []
+    for i, (ty, lo, hi) in enumerate(zip(tys, los, his)):
+        v = z3.Int(f"greg{i}!{next(eng.fresh)}")
+        eng.var_range[str(v)] = (lo, hi)
+        cons += [v >= lo, v <= hi]
+        vs.append(v)
+    c = z3.And(cons)
+    st.pc.append(c); eng.solver.add(c)
+    st.summary_vals = getattr(st, "summary_vals", []) + [("greg_call", d, ts, vs)]
+    return [(True, Agg(None, tuple(IntV(ty, v) for ty, v in zip(tys, vs))))]
+
+
+def _own_call(env):
+    calls = [x for x in env.get("__summary_vals", []) if isinstance(x, tuple) and x[0] == "greg_call"]
+    if len(calls) != 1:
+        return None
+    _, d, ts, vs = calls[0]
+    c, n, t = env["e"]
+    own = z3.And(Z(d.fields[0].e) == c, Z(d.fields[1].e) == n, Z(ts.discr) == t)
+    return own, vs
+
+
+def post_year_acc(env, ret, refs):
+    if env.get("__eng") is None:      # native judging: tokens are (accessor value, field of compute_gregorian on the own scale)
+        return ret.fields[0].e == ret.fields[1].e
+    oc = _own_call(env)
+    if oc is None:
+        return z3.BoolVal(False)
+    own, vs = oc
+    return z3.And(own, ret.e == vs[0])
+
+
+def post_month_acc(env, ret, refs):
+    if env.get("__eng") is None:
+        return ret.fields[0].e == ret.fields[1].e
+    oc = _own_call(env)
+    if oc is None:
+        return z3.BoolVal(False)
+    own, vs = oc
+    return z3.And(own, Z(ret.discr) == vs[1] - 1)     # MonthName::January = 0 ... December = 11
+
+
+def probes_acc(vals, rnd, i):
+    vals["e_c"] = rnd.choice([0, 0, 1, -1, 2, -3, 5, -19, 20, rnd.randint(-25, 45)])
+    if vals["e_n"] > NPC - 1:
+        vals["e_n"] = NPC - 1
+    if i % 2 == 0:
+        day = rnd.randint(0, 36524)
+        vals["e_n"] = day * NPD + rnd.choice([0, 1, 10 * 10**9, 36 * 10**9, NPD - 1, rnd.randint(0, NPD - 1)])
+
+
+def accessor_obligations():
+    f = ["Epoch::year", "Epoch::month_name", "impl From<u8> for MonthName", "Epoch::compute_gregorian (recording summary; its behaviour is c09_fields_all_instants)"]
+    b = "every epoch (all canonical elapsed times x nine scales)"
+    return [
+        MirOb("c09_year_accessor", "year@src/epoch/mod.rs#(&epoch::Epoch)", [In("e", "&Epoch")], post_year_acc,
+              "year() is the year field of compute_gregorian applied to the epoch's own elapsed time in its own scale", "year_pair", validate_key="year_only", ret_shape="pair_i32", min_paths=1, probes=probes_acc,
+              summaries={"::compute_gregorian": summary_compute_gregorian_recording}, summaries_concrete={}, bounds=b, functions=f, nprobe=40),
+        MirOb("c09_month_name_accessor", "month_name@src/epoch/mod.rs#(&epoch::Epoch)", [In("e", "&Epoch")], post_month_acc,
+              "month_name() is the name of the month field of compute_gregorian applied to the epoch's own elapsed time in its own scale", "month_name_pair", validate_key="month_name_only", ret_shape="pair_i32", min_paths=12, probes=probes_acc,
+              summaries={"::compute_gregorian": summary_compute_gregorian_recording}, summaries_concrete={}, bounds=b, functions=f, nprobe=40),
+    ]
+
+
 def post_year(env, ret, refs):
     # year() must be the year of the fields: compositional through compute_gregorian's own symbolic paths
     from vlib.mirsym_run import sym_paths
@@ -218,6 +291,7 @@ def obligations(tier, seed):
         KaniOb("c08", "c08_gregorian_offsets", "contract used by E2: gregorian_epoch_offset is the civil zero of each of the nine scales",
                ["TimeScale::gregorian_epoch_offset", "TimeScale::prime_epoch_offset"], "nine scales, concrete per scale", tq=900),
     ]
+    obs += accessor_obligations()
     obs += contract_obligations(tier)
     import props.c11, props.c08
     for o in props.c11.obligations(tier, seed) + props.c08.obligations("quick", seed):
